@@ -30,6 +30,10 @@ def judge(case, obs):
         cls = {0x44: 2, 0x4C: 2, 0x45: 3, 0x4D: 3, 0x46: 1, 0x4E: 1}[opc]
         if refisa.W[ops[0]["name"]] != cls:
             ref.unjudged = "regpair_class_mismatch"  # README rows: 44 r2,r' / 45 r3,r' / 46 r1,r1'"
+    if ref.unjudged is None:
+        lo, hi = case["addr"], case["addr"] + 16   # pyexec.FETCH_SPAN: reads there are taken for fetches
+        if any(lo <= a < hi for a in (ref.data_reads | set(ref.w) | ref.addr_reads)):
+            ref.unjudged = "operand_overlaps_code_window"
     if ref.unjudged:
         out["unjudged"] = ref.unjudged
         return out
@@ -121,3 +125,35 @@ def case_tags(case, ops):
             and case["regs"]["I"] > 1):
         tags.append("I>1")
     return sorted(tags)
+
+
+def undoc_tags(case, tokens):
+    """Tags that place a case in territory the README does not determine (reference 'unjudged' reason),
+    plus value-class tags.  Used by C06/C07 known-finding predicates."""
+    tags = []
+    if case["regs"].get("FHI", 0) & 0xFC and case.get("opc") in (0x2E, 0x4F, 0xFE):
+        tags.append("fhi_nonzero")   # only the instructions that push F can expose F bits 2-7
+    for d in case.get("dontcare", []) or []:
+        tags.append(d)
+    try:
+        mn, ops = tok.parse(tokens)
+    except tok.TokError:
+        return tags, "?", []
+    if mn.startswith("???"):
+        return tags + ["undoc:unknown_opcode"], mn, ops
+    ref = refisa.step(mn, ops, case["regs"], pre_reader(case), case["addr"], case["len"])
+    opc = case.get("opc")
+    if ref.unjudged is None and opc in (0x44, 0x45, 0x46, 0x4C, 0x4D, 0x4E) and ops and ops[0]["k"] == "reg":
+        cls = {0x44: 2, 0x4C: 2, 0x45: 3, 0x4D: 3, 0x46: 1, 0x4E: 1}[opc]
+        if refisa.W[ops[0]["name"]] != cls:
+            ref.unjudged = "regpair_class_mismatch"
+    if ref.unjudged == "dadl_with_carry_in":
+        # both cores document "no carry-in" for DADL: classify by BCD validity instead
+        ref = refisa.step(mn, ops, dict(case["regs"], FC=0), pre_reader(case), case["addr"], case["len"])
+    if ref.unjudged:
+        tags.append("undoc:" + ref.unjudged.split(":")[0])
+    if "val" in ref.dc and mn in ("DADL", "DSBL"):
+        tags.append("bcd_invalid_digits")
+    if mn in ("MVL", "MVLD") and (ref.data_reads & set(ref.w)):
+        tags.append("block_overlap")
+    return tags, mn, ops
